@@ -10,7 +10,7 @@ TRAILER = [0x5a, 0x11, 0x22]
 
 def corpus_for(tier, seed):
     n = 6 if tier == "quick" else 36
-    return schemas.corpus(n, seed)
+    return schemas.corpus(n, seed) + [schemas.defaults_schema()]
 
 
 def thrift_units(tier, seed, ss):
